@@ -20,6 +20,7 @@ import (
 	"encoding/json"
 	"flag"
 	"fmt"
+	"math"
 	"strings"
 	"testing"
 	"unicode"
@@ -251,19 +252,37 @@ func checkOnlyIf(c Case) error {
 			if isPageNoPattern(f.T) {
 				continue
 			}
-			repeats := false
+			// "repeats at that position": another page holds the same text in the same band within the detector's
+			// documented tolerances (PositionTolerance 5 pt, XPositionTolerance 10 pt; 2.5 pt more for the jitter
+			// the documents carry), measured as absolute coordinates or from the page edge the band belongs to
+			repeats, elsewhere := false, false
+			top := r.h[i]-(f.Y+f.S) < frag.Margin
 			for q, p := range d.Pages {
 				if q == i {
 					continue
 				}
 				for _, g := range p.Frags {
-					if g.InBand(r.h[q]) && normalize(g.T) == normalize(f.T) {
+					if !g.InBand(r.h[q]) || normalize(g.T) != normalize(f.T) {
+						continue
+					}
+					elsewhere = true
+					if gTop := r.h[q]-(g.Y+g.S) < frag.Margin; gTop != top {
+						continue
+					}
+					dy := math.Abs(g.Y - f.Y)
+					if top {
+						dy = math.Min(dy, math.Abs((r.h[q]-g.Y)-(r.h[i]-f.Y)))
+					}
+					if dy <= 7.5 && math.Abs(g.X-f.X) <= 12.5 {
 						repeats = true
 					}
 				}
 			}
-			if !repeats {
+			if !elsewhere {
 				return fmt.Errorf("page %d: %q (role %s) in a margin band was deleted although it is no page-number pattern and no band of another page holds the same text", i+1, f.T, f.Role)
+			}
+			if !repeats {
+				return fmt.Errorf("page %d: %q (role %s) at (%.2f,%.2f) in a margin band was deleted; other pages hold the same text in a band, but none of them at that position (within 5 pt vertically and 10 pt horizontally)", i+1, f.T, f.Role, f.X, f.Y)
 			}
 		}
 	}
